@@ -203,7 +203,8 @@ class BugQuery:
         """OR several chart-only queries together.
 
         Simple parameters can't take part in a chart group, so a query holding
-        any is rejected rather than silently ANDed in.
+        any is rejected rather than silently ANDed in.  A query made of several
+        conditions (``a & b``) stays a conjunction inside the group.
         """
         charts: list[Criterion | ChartGroup] = []
         for query in queries:
@@ -212,7 +213,12 @@ class BugQuery:
                     "any_of() only accepts chart based queries, got "
                     f"{[key for key, _ in query.simple]}"
                 )
-            charts.extend(query.charts)
+            if len(query.charts) > 1:
+                # the query's own conditions are ANDed; flattening them into
+                # the OR group would turn (a AND b) OR c into a OR b OR c
+                charts.append(ChartGroup(Join.AND, query.charts))
+            else:
+                charts.extend(query.charts)
         return cls(charts=(ChartGroup(Join.OR, tuple(charts)),))
 
     def __and__(self, other: "BugQuery") -> "BugQuery":
